@@ -16,6 +16,12 @@
         observed (1 nsent hdr body errno rBytes) | (0) panicked
      (6 flg gov)                     packet.New(7, 1, flg, gov), then every accessor
         observed as scenario 0
+     (8 codec thr hdr what)          the same packet object (numeric / nil / proto body or error
+                                     code) sent through codec V<codec> with the cipher, then its
+                                     own BodyToBytes / BodyToString again, then sent a second time
+                                     through the same codec and a third time through the other one
+        observed (1 #w0 #s0 rW1 rS1 Q1 Q2 Q3)    w0/s0 = wire / text form before the first send,
+                                     Q = (1 hdr body errno) delivered | (0)
      (5 codec hdr gov registered valid)   through codec V<codec> (no compression, no cipher),
                                      then Decode() on the receiver; registered = a message type
                                      is registered under hdr's command, valid = proto.Unmarshal
@@ -203,6 +209,10 @@ Definition check_wire (codec thr : Z) (enc : bool) (h : hdr) (ec : option Z) (g 
   let m := if codec =? 1 then wire_v1 tag_coders thr enc enc p else wire_v2 tag_coders thr enc enc p in
   match m, obs with
   | None, None => VOk
+  | Some _, None =>
+      (* the frame fits and must cross: a refused error code is the errno sentence failing, any
+         other refused body the wire-form sentence *)
+      match ec with Some _ => VPropFail 4 | None => VPropFail 3 end
   | Some q, Some (oh, ob, oerrno, oresend, ofwd) =>
       (* the decoded packet sent on again through the same codec *)
       let m2 := if codec =? 1 then wire_v1 tag_coders thr enc enc q else wire_v2 tag_coders thr enc enc q in
@@ -243,6 +253,57 @@ Definition check_wire (codec thr : Z) (enc : bool) (h : hdr) (ec : option Z) (g 
   | _, _ => VMismatch 10
   end.
 
+(* ---- scenario 8: the same packet object encoded again ------------------------------------- *)
+Definition q_of (s : sx) : option (option (hdr * option body * Z)) :=
+  match s with
+  | SList [SInt 0] => Some None
+  | SList [SInt 1; oh; ob; SInt oerrno] =>
+      match hdr_of oh, body_of ob with
+      | Some oh, Some ob => Some (Some (oh, ob, oerrno))
+      | _, _ => None
+      end
+  | _ => None
+  end.
+
+Definition q_matches (m : option packet) (o : option (hdr * option body * Z)) : bool :=
+  match m, o with
+  | Some q, Some (oh, ob, oerrno) => hdr_eqb (hdr_of_pkt q) oh && obody_eqb (pbody q) ob && (errno q =? oerrno)
+  | None, None => true
+  | _, _ => false
+  end.
+
+(* two deliveries carry the same value *)
+Definition q_same (a b : option (hdr * option body * Z)) : bool :=
+  match a, b with
+  | Some (_, Some b1, e1), Some (_, Some b2, e2) => body_eqb b1 b2 && (e1 =? e2)
+  | _, _ => false
+  end.
+
+Definition check_resend (codec thr : Z) (h : hdr) (ec : option Z) (g : gov) (wide : Z)
+           (w0 s0 : list Z) (w1 s1 : option (list Z)) (o1 o2 o3 : option (hdr * option body * Z)) : verdict :=
+  let p0 := pkt_of_hdr h BNil None in
+  let p := match ec with
+           | Some e => set_errno e p0
+           | None => with_body p0 (set_body (no_oracle wide) g)
+           end in
+  let wire := fun cd x => if cd =? 1 then wire_v1 tag_coders thr true true x else wire_v2 tag_coders thr true true x in
+  (* the sender's packet keeps the marks the codec set *)
+  let p' := with_flag p (fst (marshal_body tag_coders thr true p)) in
+  let corr :=
+    vjoin (check_that (zlist_eqb (body_to_bytes (pbody p)) w0) (VMismatch 23))
+   (vjoin (check_that (q_matches (wire codec p) o1) (VMismatch 24))
+   (vjoin (check_that (q_matches (wire codec p') o2) (VMismatch 25))
+          (check_that (q_matches (wire (3 - codec) p') o3) (VMismatch 26)))) in
+  let prop :=
+    vjoin (check_that (ol_eqb (Some w0) w1 && ol_eqb (Some s0) s1) (VPropFail 3))
+   (vjoin (check_that (q_same o1 o2 && q_same o1 o3) (VPropFail 3))
+          (match ec, o1 with
+           | Some e, Some (_, _, e1) => check_that (e1 =? e) (VPropFail 4)
+           | Some _, None => VPropFail 4
+           | None, _ => VOk
+           end)) in
+  vjoin prop corr.
+
 (* ---- scenario 4: reply / refuse ----------------------------------------------------- *)
 Definition check_reply (h : hdr) (mode command : Z) (argb : body) (argec : Z)
            (obs : option (Z * hdr * option body * Z * option (list Z))) : verdict :=
@@ -278,6 +339,27 @@ Definition check_reply (h : hdr) (mode command : Z) (argb : body) (argec : Z)
 
 Definition check (c : sx) : verdict :=
   match c with
+  | SList [SList [SInt 8; SInt codec; SInt thr; h; what];
+           SList [SInt 1; SBytes w0; SBytes s0; w1; s1; o1; o2; o3]] =>
+      match hdr_of h, rbytes_of w1, rbytes_of s1, q_of o1, q_of o2, q_of o3 with
+      | Some h, Some w1, Some s1, Some o1, Some o2, Some o3 =>
+          if (codec =? 1) || (codec =? 2) then
+            match what with
+            | SList [SInt 0; SInt ec] => check_resend codec thr h (Some ec) GNil 0 (zs w0) (zs s0) w1 s1 o1 o2 o3
+            | SList [SInt 1; g] =>
+                match gov_of g with
+                | Some (g, wide) => check_resend codec thr h None g wide (zs w0) (zs s0) w1 s1 o1 o2 o3
+                | None => VBad
+                end
+            | _ => VBad
+            end
+          else VBad
+      | _, _, _, _, _, _ => VBad
+      end
+  (* a large text / byte body evaluated in Go (harness/cmd/c07: bigBody):
+     (7 kind size seed codec thr enc) -> (7 code), code 0 ok | 1 read-back | 3 wire form / after the wire *)
+  | SList [SList [SInt 7; SInt _; SInt _; SInt _; SInt _; SInt _; SInt _]; SList [SInt 7; SInt code]] =>
+      if code =? 0 then VOk else if code =? 1 then VPropFail 1 else VPropFail 3
   (* the library panicked outside the calls whose panic is an outcome of its own *)
   | SList [SList _; SList [SInt (-1)]] => VPropFail 8
   | SList [SList [SInt 0; g]; SList [ob; ri; rf; rs; rb]] =>
